@@ -5,7 +5,8 @@ Words are `BitVec 64`, the storage is a `List` of words, the cached cardinality 
 are `Nat` (negative indexes terminate the process in Go and are outside the domain).  Every Go loop is restated as a
 structural recursion with an explicit iteration count; each definition names the Go statement it transcribes.
 The constants `addressBitsPerWord`, `dataBitsPerWord`, `bitIndexMask` are read from the source on every run
-(`Facts.bitset_*`).  Go `int` overflow is not modelled (indexes stay far below 2^57). -/
+(`Facts.bitset_*`).  Indexes are unbounded here; Go's 64-bit `int` is made explicit in `Model/BitSetMachine.lean`, which
+the driver executes next to this model (`C08.no_int_overflow*`: the two agree on every storage below 2^57 words). -/
 namespace BS
 
 abbrev W := BitVec 64
